@@ -11,11 +11,15 @@ CONSTANTS
   CatchUpWriteErrorFatal = TRUE
   SwallowWriteError = FALSE
   AnnounceBeforeWrite = FALSE
+  MaxReads = 1000000
+  CachedAccessor = FALSE
+  ErrKinds = {"transport", "timeout", "notfound", "cancel"}
+  NotFoundMeansLatest = FALSE
   FinalityAfterNotices = TRUE
 INIT TraceInit
 NEXT TraceNext
 VIEW traceview
 CONSTRAINT TraceProgress
-INVARIANTS TypeOK StoredFinalisedCanonical BufferSane ChainSane AnnouncedIsRecorded
+INVARIANTS TypeOK StoredFinalisedCanonical BufferSane ChainSane AnnouncedIsRecorded AccessorIsRecord
 POSTCONDITION TraceAccepted
 CHECK_DEADLOCK FALSE
